@@ -43,6 +43,8 @@ def jobs(tier, seed):
         out.append({"id": "ok/P300/between", "fam": "ok", "seq": ["P300"], "place": "between"})
         out.append({"id": "ok/R300-P1/between", "fam": "ok", "seq": ["R300", "P1"], "place": "between"})
     out.append({"id": "ok/literal-delta", "fam": "ok", "seq": ["P2", "R3"], "place": "between", "literal_delta": True})
+    for seq in (["P1"], ["P2", "R3"], ["R1", "P3"]):
+        out.append({"id": f"ok/twice/{'-'.join(seq)}", "fam": "ok", "seq": seq, "place": "between", "twice": True})
     for m in MALFORMED:
         out.append({"id": f"malformed/{m}", "fam": "malformed", "variant": m})
     return out
@@ -90,11 +92,15 @@ def run(spec, cx):
             cx.assume(((o[0] << 16) | (o[1] << 8) | o[2]) != EOF_MARK)
         if spec.get("literal_delta"):
             syms, directive = {}, ".include_ips 'p.ips', -0x1234\n"
+        elif spec.get("twice"):
+            # the same file included twice with two different deltas
+            syms = {"d": cx.int("d", -65536, 65535), "e": cx.int("e", -65536, 65535)}
+            directive = ".include_ips 'p.ips', d\n.db 0x5A\n.include_ips 'p.ips', e\n"
         else:
             syms, directive = {"d": cx.int("d", -65536, 65535)}, ".include_ips 'p.ips', d\n"
         with virtual_files(cx, {"p.ips": cx.bytes_(content)}):
             r = _outcome(assemble(program(spec["place"], directive), syms))
-        twin = _outcome(assemble(program(spec["place"], ""), syms))
+        twin = _outcome(assemble(program(spec["place"], ".db 0x5A\n" if spec.get("twice") else ""), syms))
         return (r, twin)
     v = spec["variant"]
     good = []
@@ -129,8 +135,13 @@ def run(spec, cx):
 
 
 def _expected_records(spec, cx):
+    if spec.get("twice"):
+        return _records_with(spec, cx, cx.t("d")) + _records_with(spec, cx, cx.t("e"))
+    return _records_with(spec, cx, B(-0x1234) if spec.get("literal_delta") else cx.t("d"))
+
+
+def _records_with(spec, cx, delta):
     recs = []
-    delta = B(-0x1234) if spec.get("literal_delta") else cx.t("d")
     for i, kind in enumerate(spec["seq"]):
         o = [z3.ZeroExt(56, cx.t(f"o{i}_{k}")) for k in range(3)]
         off = (o[0] << 16) | (o[1] << 8) | o[2]
